@@ -50,6 +50,14 @@ def generate(tier, rng):
                     ds = [("v", k, True) for k in range(n)]
                     ds[pos] = (form, pos, dq)
                     cases.append(mk("prog", ds, vals, {"gen": "e", "v": v, "form": form, "dq": dq, "pos": (pos, n)}))
+    # the SAME word delivered twice on one line, once unquoted and once double-quoted, in both orders (each occurrence keeps its own quoting)
+    for v in VALUES:
+        for form in "vb":
+            for first_dq in (False, True):
+                ds = [(form, 0, first_dq), (form, 0, not first_dq)]
+                cases.append(mk("prog", ds, [v], {"gen": "twice", "v": v, "form": form + form, "dq": (first_dq, not first_dq), "pos": "same-word"}))
+                ds3 = [("v", 1, True), (form, 0, first_dq), (form, 0, not first_dq)]
+                cases.append(mk("prog", ds3, [v, "w"], {"gen": "twice", "v": v, "form": "v" + form + form, "dq": (True, first_dq, not first_dq), "pos": "same-word-3"}))
     # filename expansion as the delivery: patterns over the fixture's `ops/` directory, whose entries spell shell syntax
     genv = gens.env_field(exported={"HOME": "/h"})
     for pat in ["ops/g*", "ops/h*", "ops/i*", "ops/j*", "ops/k*", "ops/l*", "ops/m*", "ops/n*", "ops/o*", "ops/p*", "ops/r*", "ops/s*", "ops/t*",
@@ -67,6 +75,10 @@ def generate(tier, rng):
         k = 1 + r.below(4)
         vals = [r.choice(VALUES) if r.chance(2, 3) else gens.rand_string(r, gens.META + ["a", " ", "é"], 0, 5) for _ in range(k)]
         ds = [(r.choice("vbpq"), i, r.chance(1, 2)) for i in range(k)]
+        if k >= 2 and r.chance(1, 4):
+            # one delivery repeats an earlier one's source (same variable / same command), with its own quoting
+            j = 1 + r.below(k - 1)
+            ds[j] = (ds[j - 1][0], ds[j - 1][1], r.chance(1, 2))
         cases.append(mk(r.choice(["prog", "./argv", "x-1"]), ds, vals, {"gen": "g", "v": tuple(vals), "form": tuple(d[0] for d in ds), "dq": tuple(d[2] for d in ds), "pos": None}))
     return cases
 
